@@ -45,6 +45,11 @@ def formulations(tier, refs_quick=("straight", "helix"), harsch=True):
                         for interp, p in INTERPS:
                             out.append({"interp": interp, "p": p, "mixed": mixed, "cons": cons, "nel": nel, "ref": ref,
                                         "mat": "Simo1986", "full_int": False})
+    if harsch:
+        # user-defined law with a non-symmetric force/couple coupling (displacement-based rods only)
+        for interp, p in INTERPS:
+            out.append({"interp": interp, "p": p, "mixed": False, "cons": None, "nel": 2, "ref": "helix", "mat": "Coupled", "full_int": False})
+        out.append({"interp": "Quaternion", "p": 2, "mixed": False, "cons": [1, 2], "nel": 2, "ref": "sheared", "mat": "Coupled", "full_int": False})
     if tier == "quick" and harsch:
         # second material on a curved and on a sheared reference (reference shear strains != 0; seeded C10-i)
         for interp, p in INTERPS:
@@ -133,6 +138,42 @@ def reference(Rod, nel, ref, seed=0):
     raise ValueError(ref)
 
 
+def coupled_material():
+    """harness-side hyperelastic law with a NON-SYMMETRIC force/couple coupling block (a user-defined RodMaterialModel):
+    W = 1/2 [dG, dK] [[Kn, C], [C^T, Km]] [dG, dK]^T  ->  B_n = Kn dG + C dK,  B_m = C^T dG + Km dK.
+    The shipped laws have zero coupling blocks, which hides a mix-up of B_n_B_Kappa and B_m_B_Gamma (seeded C11-j)."""
+    from cardillo.rods._material_models import RodMaterialModel
+
+    Kn = np.diag(np.array(EI, float))
+    Km = np.diag(np.array(FI, float))
+    C = np.array([[0.30, -0.12, 0.05], [0.21, 0.08, -0.17], [-0.06, 0.14, 0.11]])
+
+    class Coupled(RodMaterialModel):
+        def potential(self, G, G0, K, K0):
+            dG, dK = G - G0, K - K0
+            return 0.5 * dG @ Kn @ dG + dG @ C @ dK + 0.5 * dK @ Km @ dK
+
+        def B_n(self, G, G0, K, K0):
+            return Kn @ (G - G0) + C @ (K - K0)
+
+        def B_m(self, G, G0, K, K0):
+            return C.T @ (G - G0) + Km @ (K - K0)
+
+        def B_n_B_Gamma(self, G, G0, K, K0):
+            return Kn
+
+        def B_n_B_Kappa(self, G, G0, K, K0):
+            return C
+
+        def B_m_B_Gamma(self, G, G0, K, K0):
+            return C.T
+
+        def B_m_B_Kappa(self, G, G0, K, K0):
+            return Km
+
+    return Coupled()
+
+
 def build(case, seed=0, q0=None):
     """-> rod, system, Q   (fresh objects); q0: initial configuration different from the reference Q"""
     from cardillo import System
@@ -144,8 +185,11 @@ def build(case, seed=0, q0=None):
         Rod = make_CosseratRod(interpolation=case["interp"], mixed=case["mixed"], constraints=case["cons"],
                                polynomial_degree=case["p"], reduced_integration=not case.get("full_int", False))
         cs = RectangularCrossSection(0.1, 0.2)
-        Mat = Simo1986 if case.get("mat", "Simo1986") == "Simo1986" else Harsch2021
-        mat = Mat(np.array(EI), np.array(FI))
+        if case.get("mat") == "Coupled":
+            mat = coupled_material()
+        else:
+            Mat = Simo1986 if case.get("mat", "Simo1986") == "Simo1986" else Harsch2021
+            mat = Mat(np.array(EI), np.array(FI))
         Q = np.asarray(reference(Rod, case["nel"], case["ref"], seed), float)
         B_I = np.array([[0.7, 0.1, -0.05], [0.1, 1.1, 0.2], [-0.05, 0.2, 1.9]])
         rod = Rod(cs, mat, case["nel"], Q=Q.copy(), q0=Q.copy() if q0 is None else np.asarray(q0, float).copy(),
